@@ -25,22 +25,58 @@ impl Asset {
     pub fn mint(e: &Env, to: Address, amount: i128) {
         Base::mint(e, &to, amount);
     }
+    pub fn set_trap(e: &Env, mode: u32) {
+        e.storage().instance().set(&soroban_sdk::symbol_short!("trap"), &mode);
+    }
 }
 #[contractimpl(contracttrait)]
 impl FungibleToken for Asset {
     type ContractType = Base;
+    // cooperative fault point: the asset token may trap before or after it moved the funds
+    fn transfer(e: &Env, from: Address, to: MuxedAddress, amount: i128) {
+        let mode: u32 = e.storage().instance().get(&soroban_sdk::symbol_short!("trap")).unwrap_or(0);
+        if mode == 1 {
+            panic!("asset trap before transfer");
+        }
+        Base::transfer(e, &from, &to, amount);
+        if mode == 2 {
+            panic!("asset trap after transfer");
+        }
+    }
+    fn transfer_from(e: &Env, spender: Address, from: Address, to: Address, amount: i128) {
+        let mode: u32 = e.storage().instance().get(&soroban_sdk::symbol_short!("trap")).unwrap_or(0);
+        if mode == 1 {
+            panic!("asset trap before transfer_from");
+        }
+        Base::transfer_from(e, &spender, &from, &to, amount);
+        if mode == 2 {
+            panic!("asset trap after transfer_from");
+        }
+    }
 }
+#[contractimpl]
+impl AssetCtl {
+    pub fn noop() {}
+}
+#[contract]
+pub struct AssetCtl;
 
 #[derive(Clone, Debug, Serialize, Deserialize)]
 pub enum Step {
     Fund { to: usize, #[serde(with = "i128s")] amt: i128 },
     Donate { from: usize, #[serde(with = "i128s")] amt: i128 },
-    ApproveAsset { owner: usize, spender: usize, #[serde(with = "i128s")] amt: i128 },
-    ApproveShares { owner: usize, spender: usize, #[serde(with = "i128s")] amt: i128 },
-    Deposit { #[serde(with = "i128s")] assets: i128, receiver: usize, from: usize, operator: usize },
-    Mint { #[serde(with = "i128s")] shares: i128, receiver: usize, from: usize, operator: usize },
-    Withdraw { #[serde(with = "i128s")] assets: i128, receiver: usize, owner: usize, operator: usize },
-    Redeem { #[serde(with = "i128s")] shares: i128, receiver: usize, owner: usize, operator: usize },
+    /// `live` = lifetime of the allowance in ledgers from the delivery ledger
+    ApproveAsset { owner: usize, spender: usize, #[serde(with = "i128s")] amt: i128, live: u32 },
+    ApproveShares { owner: usize, spender: usize, #[serde(with = "i128s")] amt: i128, live: u32 },
+    /// `signer` = who signs the root invocation (honest: the operator); None = nobody
+    Deposit { #[serde(with = "i128s")] assets: i128, receiver: usize, from: usize, operator: usize, signer: Option<usize> },
+    Mint { #[serde(with = "i128s")] shares: i128, receiver: usize, from: usize, operator: usize, signer: Option<usize> },
+    Withdraw { #[serde(with = "i128s")] assets: i128, receiver: usize, owner: usize, operator: usize, signer: Option<usize> },
+    Redeem { #[serde(with = "i128s")] shares: i128, receiver: usize, owner: usize, operator: usize, signer: Option<usize> },
+    TransferShares { from: usize, to: usize, #[serde(with = "i128s")] amt: i128, signer: Option<usize> },
+    /// collaborator fault script: 0 = asset token behaves, 1 = traps before moving funds, 2 = traps after
+    AssetTrap { mode: u32 },
+    Advance { n: u32 },
 }
 #[derive(Clone, Debug, Serialize, Deserialize)]
 pub struct Cfg {
@@ -75,11 +111,13 @@ const VAULT: usize = usize::MAX; // model key for the vault's own asset balance
 struct Model {
     asset: BTreeMap<usize, i128>,
     shares: BTreeMap<usize, i128>,
-    a_allow: BTreeMap<(usize, usize), i128>,
-    s_allow: BTreeMap<(usize, usize), i128>,
+    a_allow: BTreeMap<(usize, usize), (i128, u32)>,
+    s_allow: BTreeMap<(usize, usize), (i128, u32)>,
     supply: i128,
     asset_supply: i128,
     off: u32,
+    now: u32,
+    trap: u32,
 }
 #[derive(Debug, PartialEq)]
 enum Exp {
@@ -118,17 +156,32 @@ impl Model {
         let lim: i128 = 1 << 100;
         x >= lim || self.supply >= lim || self.total_assets() >= lim
     }
+    fn aal(&self, o: usize, s: usize) -> i128 {
+        match self.a_allow.get(&(o, s)) {
+            Some((a, l)) if *l >= self.now => *a,
+            _ => 0,
+        }
+    }
+    fn sal(&self, o: usize, s: usize) -> i128 {
+        match self.s_allow.get(&(o, s)) {
+            Some((a, l)) if *l >= self.now => *a,
+            _ => 0,
+        }
+    }
     fn pull_assets(&mut self, from: usize, operator: usize, assets: i128) -> bool {
+        if self.trap != 0 {
+            return false;
+        }
         if self.ab(from) < assets {
             return false;
         }
         if operator != from {
-            let al = *self.a_allow.get(&(from, operator)).unwrap_or(&0);
+            let al = self.aal(from, operator);
             if al < assets {
                 return false;
             }
             if assets > 0 {
-                self.a_allow.insert((from, operator), al - assets);
+                self.a_allow.get_mut(&(from, operator)).unwrap().0 = al - assets;
             }
         }
         *self.asset.entry(from).or_insert(0) -= assets;
@@ -147,13 +200,16 @@ impl Model {
     }
     fn exit(&mut self, assets: i128, shares: i128, receiver: usize, owner: usize, operator: usize) -> Exp {
         let snap = self.clone();
+        if self.trap != 0 {
+            return Exp::Fail;
+        }
         if operator != owner {
-            let al = *self.s_allow.get(&(owner, operator)).unwrap_or(&0);
+            let al = self.sal(owner, operator);
             if al < shares {
                 return Exp::Fail;
             }
             if shares > 0 {
-                self.s_allow.insert((owner, operator), al - shares);
+                self.s_allow.get_mut(&(owner, operator)).unwrap().0 = al - shares;
             }
         }
         if self.sb(owner) < shares || self.total_assets() < assets {
@@ -177,28 +233,45 @@ impl Model {
                 Exp::Ok { assets: amt, shares: 0 }
             }
             Step::Donate { from, amt } => {
-                if amt < 0 || self.ab(from) < amt {
+                if amt < 0 || self.ab(from) < amt || self.trap != 0 {
                     return Exp::Fail;
                 }
                 *self.asset.entry(from).or_insert(0) -= amt;
                 *self.asset.entry(VAULT).or_insert(0) += amt;
                 Exp::Ok { assets: amt, shares: 0 }
             }
-            Step::ApproveAsset { owner, spender, amt } => {
+            Step::ApproveAsset { owner, spender, amt, live } => {
                 if amt < 0 {
                     return Exp::Fail;
                 }
-                self.a_allow.insert((owner, spender), amt);
+                self.a_allow.insert((owner, spender), (amt, self.now + live));
                 Exp::Ok { assets: 0, shares: 0 }
             }
-            Step::ApproveShares { owner, spender, amt } => {
+            Step::ApproveShares { owner, spender, amt, live } => {
                 if amt < 0 {
                     return Exp::Fail;
                 }
-                self.s_allow.insert((owner, spender), amt);
+                self.s_allow.insert((owner, spender), (amt, self.now + live));
                 Exp::Ok { assets: 0, shares: 0 }
             }
-            Step::Deposit { assets, receiver, from, operator } => {
+            Step::AssetTrap { mode } => {
+                self.trap = mode;
+                Exp::Ok { assets: 0, shares: 0 }
+            }
+            Step::Advance { n } => {
+                self.now += n;
+                Exp::Ok { assets: 0, shares: 0 }
+            }
+            Step::TransferShares { from, to, amt, signer } => {
+                if signer != Some(from) || amt < 0 || self.sb(from) < amt {
+                    return Exp::Fail;
+                }
+                *self.shares.entry(from).or_insert(0) -= amt;
+                *self.shares.entry(to).or_insert(0) += amt;
+                Exp::Ok { assets: 0, shares: amt }
+            }
+            Step::Deposit { operator, signer, .. } | Step::Mint { operator, signer, .. } | Step::Withdraw { operator, signer, .. } | Step::Redeem { operator, signer, .. } if signer != Some(operator) => Exp::Fail,
+            Step::Deposit { assets, receiver, from, operator, .. } => {
                 if assets < 0 {
                     return Exp::Fail;
                 }
@@ -214,7 +287,7 @@ impl Model {
                     }
                 }
             }
-            Step::Mint { shares, receiver, from, operator } => {
+            Step::Mint { shares, receiver, from, operator, .. } => {
                 if shares < 0 {
                     return Exp::Fail;
                 }
@@ -230,7 +303,7 @@ impl Model {
                     }
                 }
             }
-            Step::Withdraw { assets, receiver, owner, operator } => {
+            Step::Withdraw { assets, receiver, owner, operator, .. } => {
                 if assets < 0 {
                     return Exp::Fail;
                 }
@@ -246,7 +319,7 @@ impl Model {
                     Some(sh) => self.exit(assets, sh, receiver, owner, operator),
                 }
             }
-            Step::Redeem { shares, receiver, owner, operator } => {
+            Step::Redeem { shares, receiver, owner, operator, .. } => {
                 if shares < 0 || shares > self.sb(owner) || (shares > 0 && !self.conv_ok()) {
                     return Exp::Fail;
                 }
@@ -275,7 +348,7 @@ impl Check for VaultCheck {
         }
     }
     fn components(&self) -> serde_json::Value {
-        serde_json::json!({"real": ["examples/fungible-vault (from source)", "vault::Vault::*", "math::mul_div_i128", "fungible Base (share token and asset token)"], "stub": ["Wallet"]})
+        serde_json::json!({"real": ["examples/fungible-vault (from source)", "vault::Vault::*", "math::mul_div_i128", "fungible Base (share token and asset token: balances, allowances with expiry)"], "stub": ["Wallet (accept-all signature check)", "Asset::transfer/transfer_from fault point: trap before / after moving funds (scripted)"]})
     }
     fn property_of(&self, check: &str) -> std::vec::Vec<&'static str> {
         if check.starts_with("events.") {
@@ -294,8 +367,10 @@ impl Check for VaultCheck {
         let cfg = Cfg { actors: 3 + rng.below(2) as usize, offset: rng.below(11) as u32, start_ledger: 10 + rng.below(1000) as u32 };
         let n = cfg.actors as u64;
         let nsteps = if tier == Tier::Quick { 25 + rng.below(40) } else { 25 + rng.below(90) } as usize;
-        let mut m = Model { off: cfg.offset, ..Default::default() };
+        let mut m = Model { off: cfg.offset, now: cfg.start_ledger, ..Default::default() };
         let huge_run = rng.chance(12);
+        let fault = if rng.chance(30) { 0 } else { 4 + rng.below(16) };
+        let trap_run = rng.chance(35);
         let mut steps = vec![];
         for k in 0..nsteps {
             let any = |rng: &mut Rng| rng.below(n) as usize;
@@ -327,31 +402,68 @@ impl Check for VaultCheck {
                         let from = any(rng);
                         Step::Donate { from, amt: amt(rng, m.ab(from)) }
                     }
-                    14..=19 => Step::ApproveAsset { owner: any(rng), spender: any(rng), amt: if rng.chance(10) { 0 } else { 1 + rng.below(1_000_000_000) as i128 } },
-                    20..=25 => Step::ApproveShares { owner: any(rng), spender: any(rng), amt: if rng.chance(10) { 0 } else { i128::MAX / 2 } },
-                    26..=45 => {
-                        let from = any(rng);
-                        let operator = if rng.chance(80) { from } else { any(rng) };
-                        Step::Deposit { assets: amt(rng, m.ab(from)), receiver: any(rng), from, operator }
+                    14..=18 => Step::ApproveAsset { owner: any(rng), spender: any(rng), amt: if rng.chance(10) { 0 } else { 1 + rng.below(1_000_000_000) as i128 }, live: if rng.chance(30) { rng.below(12) as u32 } else { 100_000 } },
+                    19..=23 => Step::ApproveShares { owner: any(rng), spender: any(rng), amt: if rng.chance(10) { 0 } else if rng.chance(40) { 1 + rng.below(1_000_000_000) as i128 } else { i128::MAX / 2 }, live: if rng.chance(30) { rng.below(12) as u32 } else { 100_000 } },
+                    24..=26 => {
+                        // clock: small moves and moves onto / one past an allowance deadline
+                        let ds: std::vec::Vec<u32> = m.s_allow.values().chain(m.a_allow.values()).filter(|v| v.0 > 0 && v.1 >= m.now && v.1 < m.now + 1000).map(|v| v.1).collect();
+                        let n = if !ds.is_empty() && rng.chance(60) { (*rng.pick(&ds) + rng.below(2) as u32) - m.now } else { rng.below(4) as u32 };
+                        Step::Advance { n }
                     }
-                    46..=60 => {
+                    27..=29 if trap_run => Step::AssetTrap { mode: if m.trap != 0 { 0 } else { 1 + rng.below(2) as u32 } },
+                    27..=32 => {
+                        let hs: std::vec::Vec<usize> = (0..cfg.actors).filter(|x| m.sb(*x) > 0).collect();
+                        let from = if hs.is_empty() || rng.chance(15) { any(rng) } else { *rng.pick(&hs) };
+                        let to = if rng.chance(10) { from } else { any(rng) };
+                        Step::TransferShares { from, to, amt: amt(rng, m.sb(from)), signer: Some(from) }
+                    }
+                    33..=48 => {
                         let from = any(rng);
-                        let operator = if rng.chance(80) { from } else { any(rng) };
+                        let operator = if rng.chance(75) { from } else { any(rng) };
+                        Step::Deposit { assets: amt(rng, m.ab(from)), receiver: any(rng), from, operator, signer: Some(operator) }
+                    }
+                    49..=61 => {
+                        let from = any(rng);
+                        let operator = if rng.chance(75) { from } else { any(rng) };
                         let cap = fits(&m.to_shares(m.ab(from), false)).unwrap_or(i128::MAX);
-                        Step::Mint { shares: amt(rng, cap), receiver: any(rng), from, operator }
+                        Step::Mint { shares: amt(rng, cap), receiver: any(rng), from, operator, signer: Some(operator) }
                     }
-                    61..=80 => {
-                        let owner = any(rng);
-                        let operator = if rng.chance(80) { owner } else { any(rng) };
+                    62..=80 => {
+                        let hs: std::vec::Vec<usize> = (0..cfg.actors).filter(|x| m.sb(*x) > 0).collect();
+                        let owner = if hs.is_empty() || rng.chance(15) { any(rng) } else { *rng.pick(&hs) };
+                        let operator = if rng.chance(70) { owner } else { any(rng) };
                         let cap = fits(&m.to_assets(m.sb(owner), false)).unwrap_or(i128::MAX);
-                        Step::Withdraw { assets: amt(rng, cap), receiver: any(rng), owner, operator }
+                        let cap = if operator != owner && rng.chance(50) { cap.min(fits(&m.to_assets(m.sal(owner, operator).min(m.sb(owner)), false)).unwrap_or(cap)) } else { cap };
+                        Step::Withdraw { assets: amt(rng, cap), receiver: any(rng), owner, operator, signer: Some(operator) }
                     }
                     _ => {
-                        let owner = any(rng);
-                        let operator = if rng.chance(80) { owner } else { any(rng) };
-                        Step::Redeem { shares: amt(rng, m.sb(owner)), receiver: any(rng), owner, operator }
+                        let hs: std::vec::Vec<usize> = (0..cfg.actors).filter(|x| m.sb(*x) > 0).collect();
+                        let owner = if hs.is_empty() || rng.chance(15) { any(rng) } else { *rng.pick(&hs) };
+                        let operator = if rng.chance(70) { owner } else { any(rng) };
+                        let cap = if operator != owner && rng.chance(50) { m.sal(owner, operator).min(m.sb(owner)) } else { m.sb(owner) };
+                        Step::Redeem { shares: amt(rng, cap), receiver: any(rng), owner, operator, signer: Some(operator) }
                     }
                 }
+            };
+            // fault: the authorization set — nobody signs, the owner/from/receiver signs instead of the operator, a stranger signs
+            let s = if rng.chance(fault) {
+                let alt = |rng: &mut Rng, parties: &[usize]| -> Option<usize> {
+                    match rng.below(3) {
+                        0 => None,
+                        1 => Some(*rng.pick(parties)),
+                        _ => Some(rng.below(n) as usize),
+                    }
+                };
+                match s {
+                    Step::Deposit { assets, receiver, from, operator, .. } => Step::Deposit { assets, receiver, from, operator, signer: alt(rng, &[receiver, from]) },
+                    Step::Mint { shares, receiver, from, operator, .. } => Step::Mint { shares, receiver, from, operator, signer: alt(rng, &[receiver, from]) },
+                    Step::Withdraw { assets, receiver, owner, operator, .. } => Step::Withdraw { assets, receiver, owner, operator, signer: alt(rng, &[receiver, owner]) },
+                    Step::Redeem { shares, receiver, owner, operator, .. } => Step::Redeem { shares, receiver, owner, operator, signer: alt(rng, &[receiver, owner]) },
+                    Step::TransferShares { from, to, amt, .. } => Step::TransferShares { from, to, amt, signer: alt(rng, &[to]) },
+                    other => other,
+                }
+            } else {
+                s
             };
             m.apply(&s);
             steps.push(s);
@@ -366,8 +478,7 @@ impl Check for VaultCheck {
         let ac = AssetClient::new(e, &asset);
         let vid = e.register(Vault, (SString::from_str(e, "v"), SString::from_str(e, "V"), asset.clone(), cfg.offset));
         let v = VaultClient::new(e, &vid);
-        let mut m = Model { off: cfg.offset, ..Default::default() };
-        let live = e.ledger().sequence() + 100_000;
+        let mut m = Model { off: cfg.offset, now: cfg.start_ledger, ..Default::default() };
         let vaddr: soroban_sdk::xdr::ScAddress = (&vid).try_into().unwrap();
         let mut ev_shares: BTreeMap<usize, i128> = BTreeMap::new(); // share balances replayed from deposit / withdraw / transfer events
         for (i, s) in steps.iter().enumerate() {
@@ -375,6 +486,8 @@ impl Check for VaultCheck {
             let (a0, s0) = (m.total_assets(), m.supply);
             let kind;
             let mut preview: Option<i128> = None;
+            let digest_before = w.storage_digest(&[&vid, &asset]);
+            let allow_before: Vec<(i128, i128)> = (0..cfg.actors).flat_map(|o| (0..cfg.actors).map(move |sp| (o, sp))).map(|(o, sp)| (v.allowance(&a(o), &a(sp)), ac.allowance(&a(o), &a(sp)))).collect();
             let before_assets: Vec<i128> = (0..cfg.actors).map(|x| ac.balance(&a(x))).chain([ac.balance(&vid)]).collect();
             let before_shares: Vec<i128> = (0..cfg.actors).map(|x| v.balance(&a(x))).collect();
             let res: Option<i128> = match s {
@@ -388,51 +501,152 @@ impl Check for VaultCheck {
                     w.set_auth(&[(*from, Inv::new(&asset, "transfer", (a(*from), vid.clone(), *amt).into_val(e)))]);
                     ac.try_transfer(&a(*from), &vid, amt).ok().map(|_| 0)
                 }
-                Step::ApproveAsset { owner, spender, amt } => {
+                Step::ApproveAsset { owner, spender, amt, live } => {
                     kind = "approve_asset";
-                    w.set_auth(&[(*owner, Inv::new(&asset, "approve", (a(*owner), a(*spender), *amt, live).into_val(e)))]);
-                    ac.try_approve(&a(*owner), &a(*spender), amt, &live).ok().map(|_| 0)
+                    let l = w.now() + live;
+                    w.set_auth(&[(*owner, Inv::new(&asset, "approve", (a(*owner), a(*spender), *amt, l).into_val(e)))]);
+                    ac.try_approve(&a(*owner), &a(*spender), amt, &l).ok().map(|_| 0)
                 }
-                Step::ApproveShares { owner, spender, amt } => {
+                Step::ApproveShares { owner, spender, amt, live } => {
                     kind = "approve_shares";
-                    w.set_auth(&[(*owner, Inv::new(&vid, "approve", (a(*owner), a(*spender), *amt, live).into_val(e)))]);
-                    v.try_approve(&a(*owner), &a(*spender), amt, &live).ok().map(|_| 0)
+                    let l = w.now() + live;
+                    w.set_auth(&[(*owner, Inv::new(&vid, "approve", (a(*owner), a(*spender), *amt, l).into_val(e)))]);
+                    v.try_approve(&a(*owner), &a(*spender), amt, &l).ok().map(|_| 0)
                 }
-                Step::Deposit { assets, receiver, from, operator } => {
+                Step::AssetTrap { mode } => {
+                    kind = "collab";
+                    w.set_auth(&[]);
+                    ac.set_trap(mode);
+                    st.hit("collab.asset_trap_script_changed");
+                    Some(0)
+                }
+                Step::Advance { n } => {
+                    kind = "advance";
+                    w.advance(*n);
+                    st.ledgers += *n as u64;
+                    st.hit("clock.advance");
+                    Some(0)
+                }
+                Step::TransferShares { from, to, amt, signer } => {
+                    kind = "transfer_shares";
+                    match signer {
+                        Some(x) => w.set_auth(&[(*x, Inv::new(&vid, "transfer", (a(*from), a(*to), *amt).into_val(e)))]),
+                        None => w.set_auth(&[]),
+                    }
+                    v.try_transfer(&a(*from), &MuxedAddress::from(a(*to)), amt).ok().and_then(|r| r.ok()).map(|_| 0)
+                }
+                Step::Deposit { assets, receiver, from, operator, signer } => {
                     kind = "deposit";
                     preview = v.try_preview_deposit(assets).ok().and_then(|r| r.ok());
                     let sub = if operator == from { Inv::new(&asset, "transfer", (a(*from), vid.clone(), *assets).into_val(e)) } else { Inv::new(&asset, "transfer_from", (a(*operator), a(*from), vid.clone(), *assets).into_val(e)) };
-                    w.set_auth(&[(*operator, Inv::new(&vid, "deposit", (*assets, a(*receiver), a(*from), a(*operator)).into_val(e)).with(sub))]);
+                    match signer {
+                        Some(x) => w.set_auth(&[(*x, Inv::new(&vid, "deposit", (*assets, a(*receiver), a(*from), a(*operator)).into_val(e)).with(sub))]),
+                        None => w.set_auth(&[]),
+                    }
                     v.try_deposit(assets, &a(*receiver), &a(*from), &a(*operator)).ok().and_then(|r| r.ok())
                 }
-                Step::Mint { shares, receiver, from, operator } => {
+                Step::Mint { shares, receiver, from, operator, signer } => {
                     kind = "mint";
                     preview = v.try_preview_mint(shares).ok().and_then(|r| r.ok());
                     let need = preview.unwrap_or(0);
                     let sub = if operator == from { Inv::new(&asset, "transfer", (a(*from), vid.clone(), need).into_val(e)) } else { Inv::new(&asset, "transfer_from", (a(*operator), a(*from), vid.clone(), need).into_val(e)) };
-                    w.set_auth(&[(*operator, Inv::new(&vid, "mint", (*shares, a(*receiver), a(*from), a(*operator)).into_val(e)).with(sub))]);
+                    match signer {
+                        Some(x) => w.set_auth(&[(*x, Inv::new(&vid, "mint", (*shares, a(*receiver), a(*from), a(*operator)).into_val(e)).with(sub))]),
+                        None => w.set_auth(&[]),
+                    }
                     v.try_mint(shares, &a(*receiver), &a(*from), &a(*operator)).ok().and_then(|r| r.ok())
                 }
-                Step::Withdraw { assets, receiver, owner, operator } => {
+                Step::Withdraw { assets, receiver, owner, operator, signer } => {
                     kind = "withdraw";
                     preview = v.try_preview_withdraw(assets).ok().and_then(|r| r.ok());
-                    w.set_auth(&[(*operator, Inv::new(&vid, "withdraw", (*assets, a(*receiver), a(*owner), a(*operator)).into_val(e)))]);
+                    match signer {
+                        Some(x) => w.set_auth(&[(*x, Inv::new(&vid, "withdraw", (*assets, a(*receiver), a(*owner), a(*operator)).into_val(e)))]),
+                        None => w.set_auth(&[]),
+                    }
                     v.try_withdraw(assets, &a(*receiver), &a(*owner), &a(*operator)).ok().and_then(|r| r.ok())
                 }
-                Step::Redeem { shares, receiver, owner, operator } => {
+                Step::Redeem { shares, receiver, owner, operator, signer } => {
                     kind = "redeem";
                     preview = v.try_preview_redeem(shares).ok().and_then(|r| r.ok());
-                    w.set_auth(&[(*operator, Inv::new(&vid, "redeem", (*shares, a(*receiver), a(*owner), a(*operator)).into_val(e)))]);
+                    match signer {
+                        Some(x) => w.set_auth(&[(*x, Inv::new(&vid, "redeem", (*shares, a(*receiver), a(*owner), a(*operator)).into_val(e)))]),
+                        None => w.set_auth(&[]),
+                    }
                     v.try_redeem(shares, &a(*receiver), &a(*owner), &a(*operator)).ok().and_then(|r| r.ok())
                 }
             };
             let events = if res.is_some() { w.last_events() } else { vec![] };
             let snapshot = m.clone();
             let exp = m.apply(s);
+            debug_assert!(m.now == w.now());
             let got = res.is_some();
-            st.tx(kind, got);
+            if kind != "advance" && kind != "collab" {
+                st.tx(kind, got);
+            }
+            // fault accounting (fired = a tx was delivered under this fault)
+            let (op_signer, op_operator): (Option<Option<usize>>, Option<usize>) = match s {
+                Step::Deposit { signer, operator, .. } | Step::Mint { signer, operator, .. } | Step::Withdraw { signer, operator, .. } | Step::Redeem { signer, operator, .. } => (Some(*signer), Some(*operator)),
+                Step::TransferShares { signer, from, .. } => (Some(*signer), Some(*from)),
+                _ => (None, None),
+            };
+            if let (Some(sg), Some(op)) = (op_signer, op_operator) {
+                if sg.is_none() {
+                    st.hit("fault.auth_missing");
+                } else if sg != Some(op) {
+                    st.hit("fault.auth_foreign");
+                }
+                if snapshot.trap != 0 {
+                    st.hit(if snapshot.trap == 1 { "fault.asset_trap_before_move" } else { "fault.asset_trap_after_move" });
+                }
+            }
+            // ---- C02, stated without the model's outcome: whose shares / assets fell, and was that allowed?
+            if got {
+                if let Some(sg) = op_signer {
+                    for x in 0..cfg.actors {
+                        let (sh_now, as_now) = (v.balance(&a(x)), ac.balance(&a(x)));
+                        let idx = |o: usize, sp: usize| o * cfg.actors + sp;
+                        if sh_now < before_shares[x] {
+                            let by_holder = sg == Some(x) && matches!(s, Step::Withdraw { owner, operator, .. } | Step::Redeem { owner, operator, .. } if *owner == x && *operator == x) || sg == Some(x) && matches!(s, Step::TransferShares { from, .. } if *from == x);
+                            let by_allowance = match s {
+                                Step::Withdraw { owner, operator, .. } | Step::Redeem { owner, operator, .. } if *owner == x && operator != owner && sg == Some(*operator) => {
+                                    let spent = before_shares[x] - sh_now;
+                                    let al0 = allow_before[idx(x, *operator)].0;
+                                    let al1 = v.allowance(&a(x), &a(*operator));
+                                    if al0 >= spent && al1 != al0 - spent {
+                                        return Err(violation("allowance.exact_decrement", kind, i, format!("share allowance ({x},{operator}) {al0} -> {al1} after spending {spent} in {s:?}")));
+                                    }
+                                    al0 >= spent
+                                }
+                                _ => false,
+                            };
+                            if !(by_holder || by_allowance) {
+                                return Err(violation("auth.debit_needs_holder_or_allowance", kind, i, format!("shares of actor {x} fell {} -> {sh_now} in {s:?} (root entry signed by {sg:?})", before_shares[x])));
+                            }
+                        }
+                        if as_now < before_assets[x] {
+                            let by_holder = sg == Some(x) && matches!(s, Step::Deposit { from, operator, .. } | Step::Mint { from, operator, .. } if *from == x && *operator == x);
+                            let by_allowance = match s {
+                                Step::Deposit { from, operator, .. } | Step::Mint { from, operator, .. } if *from == x && operator != from && sg == Some(*operator) => {
+                                    let spent = before_assets[x] - as_now;
+                                    let al0 = allow_before[idx(x, *operator)].1;
+                                    let al1 = ac.allowance(&a(x), &a(*operator));
+                                    if al0 >= spent && al1 != al0 - spent {
+                                        return Err(violation("allowance.exact_decrement", kind, i, format!("asset allowance ({x},{operator}) {al0} -> {al1} after spending {spent} in {s:?}")));
+                                    }
+                                    al0 >= spent
+                                }
+                                _ => false,
+                            };
+                            if !(by_holder || by_allowance) {
+                                return Err(violation("auth.debit_needs_holder_or_allowance", kind, i, format!("assets of actor {x} fell {} -> {as_now} in {s:?} (root entry signed by {sg:?})", before_assets[x])));
+                            }
+                        }
+                    }
+                }
+            }
             let is_vault_op = matches!(s, Step::Deposit { .. } | Step::Mint { .. } | Step::Withdraw { .. } | Step::Redeem { .. });
             match (&exp, got) {
+                (Exp::Fail, true) if matches!(op_signer, Some(sg) if sg != op_operator) => return Err(violation("auth.operator_must_authorize", kind, i, format!("{s:?} succeeded although the operator did not sign"))),
                 (Exp::Fail, true) => return Err(violation("refine.must_fail", kind, i, format!("{s:?} succeeded with {res:?}; model before: A={a0} S={s0} off={}", cfg.offset))),
                 (Exp::Ok { .. }, false) => return Err(violation("live.must_succeed", kind, i, format!("{s:?} failed; model before: A={a0} S={s0} off={} expected {exp:?}", cfg.offset))),
                 (Exp::Unspecified, false) => {
@@ -507,10 +721,50 @@ impl Check for VaultCheck {
             if ta != m.total_assets() || ts != m.supply || ac.balance(&vid) != ta {
                 return Err(violation("move.exact_parties_amounts", "vault", i, format!("total_assets {ta} (model {}), total_supply {ts} (model {}) after {s:?}", m.total_assets(), m.supply)));
             }
-            if !got && is_vault_op {
+            if !got {
                 let after: Vec<i128> = (0..cfg.actors).map(|x| ac.balance(&a(x))).chain([ac.balance(&vid)]).collect();
-                if after != before_assets {
-                    return Err(violation("fail.no_trace", kind, i, format!("asset balances changed by failed {s:?}")));
+                if after != before_assets || w.storage_digest(&[&vid, &asset]) != digest_before {
+                    return Err(violation("fail.no_trace", kind, i, format!("vault / asset state changed by failed {s:?}")));
+                }
+            }
+            // ---- allowances (shares and asset) equal the model, incl. expiry
+            for o in 0..cfg.actors {
+                for sp in 0..cfg.actors {
+                    let (rs, ra) = (v.allowance(&a(o), &a(sp)), ac.allowance(&a(o), &a(sp)));
+                    if rs != m.sal(o, sp) || ra != m.aal(o, sp) {
+                        return Err(violation("allowance.model_eq", kind, i, format!("({o},{sp}): share allowance {rs} (model {}), asset allowance {ra} (model {}) at ledger {} after {s:?}", m.sal(o, sp), m.aal(o, sp), w.now())));
+                    }
+                }
+            }
+            // ---- views: conversions, previews and max_* equal the exact formula in the state just reached
+            if i % 3 == 0 || is_vault_op {
+                for x in [1i128, 7, 1_000, 999_983, m.supply.max(1), m.total_assets().max(1)] {
+                    if m.huge(x) || !m.conv_ok() {
+                        continue;
+                    }
+                    let chk = |name: &str, real: Option<i128>, want: BigInt| -> Result<(), Violation> {
+                        match (real, fits(&want)) {
+                            (Some(r), Some(wv)) if r == wv => Ok(()),
+                            // a quotient that does not fit i128 must be refused
+                            (None, None) => Ok(()),
+                            (r, wv) => Err(violation("convert.exact_rounded", name, i, format!("{name}({x}) = {r:?}, exact formula {wv:?}; A={} S={} off={}", m.total_assets(), m.supply, cfg.offset))),
+                        }
+                    };
+                    chk("convert_to_shares", v.try_convert_to_shares(&x).ok().and_then(|r| r.ok()), m.to_shares(x, false))?;
+                    chk("convert_to_assets", v.try_convert_to_assets(&x).ok().and_then(|r| r.ok()), m.to_assets(x, false))?;
+                    chk("preview_deposit", v.try_preview_deposit(&x).ok().and_then(|r| r.ok()), m.to_shares(x, false))?;
+                    chk("preview_mint", v.try_preview_mint(&x).ok().and_then(|r| r.ok()), m.to_assets(x, true))?;
+                    chk("preview_withdraw", v.try_preview_withdraw(&x).ok().and_then(|r| r.ok()), m.to_shares(x, true))?;
+                    chk("preview_redeem", v.try_preview_redeem(&x).ok().and_then(|r| r.ok()), m.to_assets(x, false))?;
+                }
+                if !m.huge(0) && m.conv_ok() {
+                    for x in 0..cfg.actors {
+                        let mw = v.try_max_withdraw(&a(x)).ok().and_then(|r| r.ok());
+                        let mr = v.try_max_redeem(&a(x)).ok().and_then(|r| r.ok());
+                        if mw != fits(&m.to_assets(m.sb(x), false)) || mr != Some(m.sb(x)) {
+                            return Err(violation("max.bounds_respected", "max_withdraw/max_redeem", i, format!("actor {x}: max_withdraw {mw:?} (formula {:?}), max_redeem {mr:?} (shares {})", fits(&m.to_assets(m.sb(x), false)), m.sb(x))));
+                        }
+                    }
                 }
             }
             st.state(&(kind, got, (m.supply > 0), (m.total_assets() > m.supply)));
